@@ -3,7 +3,7 @@
 import asyncio
 import logging
 import os
-from typing import Any, Dict, Generator, Mapping, Optional, Set
+from typing import Any, Callable, Dict, Generator, Mapping, Optional, Set
 
 from pyatv import exceptions
 from pyatv.auth.hap_pairing import AuthenticationType, HapCredentials, parse_credentials
@@ -122,8 +122,10 @@ class AirPlayStream(Stream):  # pylint: disable=too-few-public-methods
             await server.start()
             url = server.file_address
 
-        takeover_release = self.core.takeover(RemoteControl)
+        takeover_release: Optional[Callable[[], None]] = None
         try:
+            takeover_release = self.core.takeover(RemoteControl)
+
             # Set up a new connection and wrap it with an AirPlay stream of
             # correct protocol version
             self._connection = await http_connect(
@@ -136,7 +138,8 @@ class AirPlayStream(Stream):  # pylint: disable=too-few-public-methods
             self._play_task = asyncio.ensure_future(player.play_url(url, position))
             return await self._play_task
         finally:
-            takeover_release()
+            if takeover_release:
+                takeover_release()
             self._play_task = None
             if self._connection:
                 self._connection.close()
